@@ -334,11 +334,13 @@ congruence<Number>::operator/(const congruence<Number> &o) const {
   else {
     /*
        aZ+b / 0Z+b':
-          if b'|a then  (a/b')Z + b/b'
-          else          top
+          if a=0 or (b'|a and b'|b) then  (a/b')Z + b/b'
+          else                            top
+       (if b' does not divide b the quotients of negative and
+       non-negative dividends are rounded in opposite directions)
     */
     if (o.m_a == 0) {
-      if (m_a % o.m_b == 0)
+      if (m_a == 0 || (m_a % o.m_b == 0 && m_b % o.m_b == 0))
         return congruence<Number>(m_a / o.m_b, m_b / o.m_b);
       else
         return congruence<Number>::top();
@@ -346,17 +348,17 @@ congruence<Number>::operator/(const congruence<Number> &o) const {
 
     /*
          0Z+b / a'Z+b':
-            if N>0   (b div N)Z + 0
-            else     0Z + 0
+            if |b| < N then 0Z + 0
+            else            top
 
-           where N = a'((b-b') div a') + b'
+           where N = min{|n| : n in a'Z+b', n != 0}
     */
     if (m_a == 0) {
-      Number n(o.m_a * (((m_b - o.m_b) / o.m_a) + o.m_b));
-      if (n > 0) {
-        return congruence<Number>(m_b / n, Number(0));
-      } else {
+      Number n = (o.m_b == 0 ? o.m_a : min(o.m_b, o.m_a - o.m_b));
+      if (abs(m_b) < n) {
         return congruence<Number>(Number(0), Number(0));
+      } else {
+        return congruence<Number>::top();
       }
     }
 
